@@ -261,3 +261,13 @@ Lemma simple_renumber_unfold k hs next limit :
   simple_renumber k hs next limit =
   (undefine_ids hs ;;; fold_left (fun (acc : M N) h => n <~ acc ;;; rstep k limit n h) hs (ret next)).
 Proof. reflexivity. Qed.
+
+Lemma ids_only_meaning s s' : ids_only s s' ->
+  docs s' = docs s /\
+  forall h e, get_elem s h = Some e -> exists e', get_elem s' h = Some e' /\
+    ekind e' = ekind e /\ eparent e' = eparent e /\ erefs e' = erefs e /\ eparams e' = eparams e /\ etag e' = etag e /\
+    (protected_id (ekind e) (eid e) = true -> eid e' = eid e).
+Proof.
+  intros [H D]. split; auto. intros h e He. specialize (H h). rewrite He in H.
+  destruct (get_elem s' h) as [e'|]; [|contradiction]. exists e'. unfold same_but_ids in H. intuition.
+Qed.
